@@ -224,6 +224,10 @@ package dnsmsg
 //@   ensures opt != nil && (fresh(opt) || old(pooled[opt])) && !pooled[opt]
 //@   ensures starts-without-options: len(opt.Option) == 0
 //@   ensures opt.Hdr.Name == "." && opt.Hdr.Rrtype == 41
+// ... and with a header of its own: the UDP size and DO bit asked for, and
+// nothing else - extended RCODE, EDNS version and Z flags of the message it
+// was released from are gone.
+//@   ensures header-carries-nothing-over: opt.Hdr.Class == udpSize && opt.Hdr.Ttl == (doBit ? 32768 : 0) && opt.Hdr.Rdlength == 0
 //@   ensures live-records-untouched: forall o *dns.OPT :: allocated(o) && !fresh(o) && !old(pooled[o]) ==> o.Option == old(o.Option) && o.Hdr == old(o.Hdr)
 
 //@ func newEDNS0EDE
